@@ -17,7 +17,7 @@ from ..core import J, Sub, raised, rng_of, sut
 PROPERTY = "C14"
 RULE = (
     "histories over {decimate(q, ftype/n/zero_phase), detrend(type, bp), filter(Wn, order, btype), rollback, add_algorithms} on SingleSetup and "
-    "MultiSetup_PreGER (1..3 datasets of 2..5 channels, any reference layout): all sequences up to length 3 (quick) / 4 (thorough) over a 10-symbol "
+    "MultiSetup_PreGER (1..3 datasets of 2..5 channels, any reference layout): all sequences up to length 3 (quick) / 4 (thorough) over a 11-symbol "
     "alphabet enumerated, longer ones generated; model = scipy.signal.decimate/detrend/butter+sosfiltfilt applied in sequence; after every step "
     "data, fs, dt, sample counts, durations and the array bound to a freshly added algorithm are compared; "
     "non-trivial = >= 2 data-changing operations or a rollback after a change"
@@ -36,6 +36,7 @@ ALPHABET = [
     {"op": "decimate", "q": 2, "kw": {"ftype": "fir", "n": 8, "zero_phase": False, "axis": 0}},
     {"op": "detrend", "kw": {"type": "linear"}},
     {"op": "detrend", "kw": {"type": "constant", "bp": 100, "axis": 0}},
+    {"op": "detrend", "kw": {"type": "constant"}},
     {"op": "filter", "wn": [0.4], "order": 8, "btype": "lowpass", "default_order": True},
     {"op": "filter", "wn": [0.2, 0.6], "order": 4, "btype": "bandpass"},
     {"op": "filter", "hz": [4.0], "order": 4, "btype": "lowpass"},  # identical specification in Hz before and after a change of rate
@@ -290,7 +291,7 @@ def history_case(draw, kind, max_steps):
 
 SUBS = [
     Sub("enumerate_single", judge_history, enum=_enum("single"), shards_quick=16, shards_thorough=16,
-        rule="SingleSetup: every operation sequence up to length 3 (quick) / 4 (thorough) over the 10-symbol alphabet against the scipy model"),
+        rule="SingleSetup: every operation sequence up to length 3 (quick) / 4 (thorough) over the 11-symbol alphabet against the scipy model"),
     Sub("enumerate_preger", judge_history, enum=_enum("preger"), shards_quick=16, shards_thorough=16,
         rule="MultiSetup_PreGER (two datasets, references [2,0] and [1,3]): every sequence up to length 3 / 4 against the scipy model + own split"),
     Sub("machine_single", judge_history, history_case("single", 6), quick=500, thorough=30000,
